@@ -1,5 +1,6 @@
 import FpgoVerif.Proofs.C19Desc
 import FpgoVerif.Proofs.C19Heap
+import FpgoVerif.Proofs.C19Oracle
 /-! Property theorems for C19 — "Sorting yields an ordered, stable permutation; descriptors sort by key
     list".  All statements are about the definitions of `Model/C19.lean` that the driver executes.
 
@@ -143,6 +144,19 @@ theorem C19_desc_single (f : α → Int) (g : α → List Nat) (x y : α) :
     descLess [⟨fun r => some (.os (g r)), false⟩] x y = bytesLt (g y) (g x) := by
   simp [C19_desc, lexLt, Desc.keyLt, optLt, Key.lt]
 
+/-- The pinned commit's comparator (result of `CompareTo` discarded, `>= 0`) answers "less" for an
+    element against itself — it is not irreflexive, hence no strict weak order, for every descriptor
+    stack: the contract of `sort.SliceStable` is broken on every input. -/
+theorem C19_pinned_refuted (d : Desc α) (rest : List (Desc α)) (x : α) :
+    descLessPinned (d :: rest) x x = true ∧ ¬ StrictWeak (descLessPinned (d :: rest)) := by
+  have h0 : ∀ (rest : List (Desc α)) (d : Desc α), compareBySortDescriptorsPinned d rest x x = 0 := by
+    intro rest
+    induction rest with
+    | nil => intro d; cases hk : d.key x <;> simp [compareBySortDescriptorsPinned, hk]
+    | cons d' rest' ih => intro d; cases hk : d.key x <;> simp [compareBySortDescriptorsPinned, hk, ih d']
+  have h1 : descLessPinned (d :: rest) x x = true := by simp [descLessPinned, h0]
+  exact ⟨h1, fun hsw => by have := hsw.1 x; rw [h1] at this; cases this⟩
+
 /-! ## (3) the descriptor sorts, composed -/
 
 /-- `SortedListBySortDescriptors` / `ToSortedList`: the result is a permutation of the input, ordered
@@ -181,6 +195,24 @@ theorem C19_sortInPlace (ds : List (Desc α)) (l : List α) :
     (∀ x, r.filter (equivBy (lexLt ds) x) = l.filter (equivBy (lexLt ds) x)) := by
   simp only [sortBySortDescriptors, sort, descLess_eq_lexLt]
   exact ⟨sortBy_perm _ l, sortBy_pairwise (lexLt_strictWeak ds) l, sortBy_filter_equiv (lexLt_strictWeak ds) l⟩
+
+/-! ## (4) oracle = model: what `judge` accepts is exactly what `handle` answers -/
+
+/-- The judge's oracle evaluates the property's own statement on the observed id sequence
+    (permutation ∧ ordered by the comparator ∧ stable).  For a strict weak comparator it accepts an
+    observation iff it is the model's answer — so on `C` cases every model/implementation mismatch is a
+    violation of the property and there is nothing the judge could excuse. -/
+theorem C19_oracle_accepts_exactly_model {β : Type} {less : β → β → Bool} (h : StrictWeak less)
+    (recs : List β) (ids : List Nat) :
+    verdict less recs ids = "allowed ordered stable permutation" ↔ ids = modelIds less recs :=
+  (verdict_allowed_iff less recs ids).trans (acceptsB_iff h recs ids)
+
+/-- The same for descriptor (`D`) cases: the oracle orders by the SPEC (`lexLt ds` on the keys), the
+    model sorts with the mirrored `_compareBySortDescriptors`; they accept / produce the same sequence. -/
+theorem C19_oracle_desc (ds : List (Desc Rec)) (recs : List Rec) (ids : List Nat) :
+    verdict (lexLt ds) recs ids = "allowed ordered stable permutation" ↔
+      ids = (sortBySortDescriptors (ds.map liftDesc) (tag recs)).map (·.1) := by
+  rw [C19_oracle_accepts_exactly_model (lexLt_strictWeak ds), modelIds, sortBySortDescriptors, descLess_liftDesc]
 
 /-! ## non-vacuity -/
 
